@@ -131,19 +131,37 @@ def explore(modname, tier, seed, budget_s=None, progress=True):
                     break
         except cf.process.BrokenProcessPool:
             died.extend(ci for f, ci in futs.items() if not f.done())
-    # chunks lost to a dying worker are re-run one case per fresh process so the culprit is identified
-    for ci in sorted(set(died)):
-        for idx, case in chunks[ci]:
-            if results[idx] is not None:
-                continue
-            with cf.ProcessPoolExecutor(max_workers=1, mp_context=ctx, initializer=_init_worker,
-                                        initargs=(modname,)) as ex1:
+    # A dying worker (interpreter crash, the kernel's out-of-memory killer on a loaded machine) breaks the whole pool: every chunk that was
+    # still pending is lost with it.  Round 2 re-runs the lost chunks in a fresh pool (a transient death does not recur); what is lost AGAIN
+    # is re-run one case per fresh process - several of them side by side - so that the culprit is identified.
+    lost = sorted(set(died))
+    if lost:
+        again = []
+        with cf.ProcessPoolExecutor(max_workers=nproc, mp_context=ctx, initializer=_init_worker, initargs=(modname,)) as ex2:
+            futs2 = {ex2.submit(_work_chunk, chunks[ci]): ci for ci in lost}
+            try:
+                for fut in cf.as_completed(futs2):
+                    try:
+                        for r in fut.result():
+                            results[r['index']] = r
+                    except cf.process.BrokenProcessPool:
+                        again.append(futs2[fut])
+            except cf.process.BrokenProcessPool:
+                again.extend(ci for f, ci in futs2.items() if not f.done())
+        singles = [(idx, case) for ci in sorted(set(again)) for idx, case in chunks[ci] if results[idx] is None]
+
+        def isolated(item):
+            idx, case = item
+            with cf.ProcessPoolExecutor(max_workers=1, mp_context=ctx, initializer=_init_worker, initargs=(modname,)) as ex1:
                 try:
-                    r = ex1.submit(_work_chunk, [(idx, case)]).result()[0]
+                    return ex1.submit(_work_chunk, [(idx, case)]).result()[0]
                 except cf.process.BrokenProcessPool:
-                    r = dict(index=idx, outcome='worker-died', nontrivial=False, evals=1,
-                             violations=[dict(sig='worker-process-died', msg='interpreter died while running the case', detail={})])
-                results[idx] = r
+                    return dict(index=idx, outcome='worker-died', nontrivial=False, evals=1,
+                                violations=[dict(sig='worker-process-died', msg='interpreter died while running the case', detail={})])
+        if singles:
+            with cf.ThreadPoolExecutor(max_workers=max(1, nproc // 2)) as tp:
+                for r in tp.map(isolated, singles):
+                    results[r['index']] = r
     summary = aggregate(mod, cases, results, tier, seed, time.time() - t0, capped)
     return mod, cases, results, summary
 
